@@ -122,6 +122,32 @@ def cases(tier, seed, info):
         # split to keep records of one case below ~3000 decodes
         for j in range(0, len(inputs), 1500):
             out.append(dict(kind='decode', base=k, inputs=inputs[j:j + 1500]))
+    # counts and lengths at the ends of what their fields can hold (255 targets, a 255 character name, ten callouts,
+    # a user-data section of 16 KiB ...): the whole PEL and every proper prefix of it (every 7th beyond 1500 bytes)
+    lim = []
+    for k, (nt, nl) in enumerate([(255, 0), (255, 255), (254, 4), (253, 5), (0, 255), (1, 254), (128, 128), (127, 3)]):
+        pel = genpel.gen_pel(rng, kinds=[], creator='O')
+        pel['secs'] = ([genpel.gen_mt(rng)] if k % 3 == 2 else []) + [genpel.gen_lp(rng, ntargets=nt, namelen=nl)]
+        lim.append(pel)
+    pel = genpel.gen_pel(rng, kinds=[], creator='O')
+    pel['secs'] = [genpel.gen_src(rng, 'PS', ncallouts=10)]
+    lim.append(pel)
+    for size in (4, 8, 252, 256, 16384):
+        pel = genpel.gen_pel(rng, kinds=[], creator='O')
+        pel['secs'] = [dict(genpel.hdr(rng, 'UD'), kind='UD', sub=rng.randrange(256), ver=1, comp=[0x77, 0x77],
+                            payload=genpel.rbytes(rng, size))]
+        lim.append(pel)
+    nlim = 0
+    for pel in lim:
+        data = bytes(encode.encode(pel))
+        inputs = [(data.hex(), False)]
+        inputs += [(data[:L].hex(), True) for L in range(len(data)) if L < 1500 or len(data) - L < 64 or L % 7 == 0]
+        nlim += len(inputs)
+        for j in range(0, len(inputs), 1500):
+            out.append(dict(kind='decode', base=-3, inputs=inputs[j:j + 1500]))
+    total += nlim
+    info['limit_pels'] = len(lim)
+    info['limit_decodes'] = nlim
     # well-formed PELs whose text / JSON user data holds long runs of the characters the output stage scans for
     patho = []
     for ch in ('\\', '"', ':', '{', '\u00e9', '\\"', '":', ' '):
